@@ -44,7 +44,7 @@ def gen_case(st, tier, env):
         kind = w.choice(["permute", "reinsertion", "reinsertion", "reverse_buckets", "as_elements", "rename",
                          "sub_problem_all", "unified", "file", "move_element", "split_bucket", "merge_buckets",
                          "multiplicity", "swap_buckets", "replace_element", "blank_name", "comma_name", "self",
-                         "edit_in_place", "edit_in_place", "twin_name"])
+                         "edit_in_place", "edit_in_place", "twin_name", "respell"])
         new = [[list(b) for b in r] for r in rk]
         spec = dict(base)
         v = {"kind": kind}
@@ -112,6 +112,16 @@ def gen_case(st, tier, env):
                 e = w.choice(els)
                 repl = (max([x for x in els if isinstance(x, int)] + [0]) + 8) if isinstance(e, int) else str(e) + "x"
                 new = [[[repl if x == e else x for x in b] for b in r] for r in new]
+        elif kind == "respell":
+            # every name is integer-like: 7, "7" and "07" spell the same element, so the respelled copy is equal
+            els = _all_elems(new)
+            if els and all((isinstance(x, int) and not isinstance(x, bool) and x >= 0) or
+                           (isinstance(x, str) and x.isdigit()) for x in els):
+                def sp(x):
+                    v0 = int(x)
+                    r0 = w.random()
+                    return v0 if r0 < 0.4 else str(v0) if r0 < 0.8 else "0" + str(v0)
+                new = [[[sp(x) for x in b] for b in r] for r in new]
         elif kind == "twin_name":
             # a str dataset (it has a non integer-like name) where "7" and "07" are two different elements
             strs = [e for e in _all_elems(new) if isinstance(e, str) and not e.isdigit()]
@@ -218,6 +228,12 @@ def run_case(case, ctx):
         ma_cur = canon_rankings(a_cur.rankings)
         mb = canon_rankings(b.rankings)
         expected = model.multiset(ma_cur) == model.multiset(mb)
+        if not v.get("derive") and not v.get("edit"):
+            # both sides come straight from specs: the verdict is taken from the reference normalisation of the raw
+            # names (7, "7", "07" are one element when every name is integer-like), not from what the library built
+            spec_a = v.get("rebase") or case["base"]["rankings"]
+            expected = model.multiset(model.normalise(spec_a)) == model.multiset(model.normalise(v["dataset"]["rankings"]))
+            ctx.probe("verdict_from_specs")
         if kind in ("reinsertion", "reverse_buckets") and any(len(bk) > 1 for r in ma for bk in r):
             ctx.probe("reordered_bucket")
         if kind in ("move_element", "split_bucket", "merge_buckets", "multiplicity", "swap_buckets", "replace_element",
